@@ -219,11 +219,11 @@ pub fn run(run: &Run) {
     );
     run.assume("strings are generated without NUL except an optional final terminator; whether the terminator is kept in the value is left open by the statement");
     run.regressions(&replay);
-    run.random("construct", run.cases(200_000, 3_000_000), 0.5, strategy, check);
+    run.random("construct", run.cases(300_000, 4_000_000), 0.5, strategy, check);
     // arbitrary payloads (not produced by the reference packing): verdict and values must equal the reference decode
     run.random(
         "arbitrary-payloads",
-        run.cases(400_000, 6_000_000),
+        run.cases(600_000, 8_000_000),
         0.3,
         raw_strategy,
         check_raw,
